@@ -14,7 +14,7 @@ use refchess::{Color, Kind, Mv, Pos};
 use serde_json::{json, Value};
 use std::cell::RefCell;
 
-pub const RULE: &str = "(i) same position by different routes: two interleavings of commuting legal moves (a·b·c·d vs c·b·a·d / c·d·a·b / a·d·c·b), used only when the reference says the end positions are equal; the same position by FEN and by play; same four fields with different counters -> hashes must be EQUAL. (ii) single-component flips through the public Board API (add/remove/recolour/retype one man, side to move, each castling right, ep None<->Some(s), Some(s)<->Some(t)) -> hashes must DIFFER. (iii) population: >=10^4 distinct positions per pool; within a key draw two positions share a hash iff they are the same position. All under K independent ZobristTable::new() draws per worker thread (8 quick / 64 thorough). Non-trivial: (i) routes differ in >=2 visited positions, (ii) any flip, (iii) pool >= 10^4; distinct by FEN pair / (FEN, component).";
+pub const RULE: &str = "(i) same position by different routes: two interleavings of commuting legal moves (a·b·c·d vs c·b·a·d / c·d·a·b / a·d·c·b), used only when the reference says the end positions are equal; the same position by FEN and by play; same four fields with different counters -> hashes must be EQUAL. (ii) single-component flips — and in a third of the cases accumulated flips of two or more components (e.g. one castling right exchanged for another) — through the public Board API (add/remove/recolour/retype one man, side to move, each castling right, ep None<->Some(s), Some(s)<->Some(t)) -> hashes must DIFFER. (iii) population: >=10^4 distinct positions per pool; within a key draw two positions share a hash iff they are the same position. All under K independent ZobristTable::new() draws per worker thread (8 quick / 64 thorough). Non-trivial: (i) routes differ in >=2 visited positions, (ii) any flip, (iii) pool >= 10^4; distinct by FEN pair / (FEN, component).";
 
 thread_local! {
     static TABLES: RefCell<Vec<ZobristTable>> = RefCell::new(Vec::new());
@@ -187,14 +187,20 @@ fn part_flips(bytes: &[u8], stats: &mut Stats) -> Verdict {
     let b0 = guarded("Board::new", || eng::to_board(&p))?;
     let h0 = hashes(&b0);
     let nflips = 1 + s.below(24);
+    // a third of the cases accumulate their flips (two or three components differ at once:
+    // e.g. king-side right exchanged for the queen-side right); the accumulated board is judged
+    // whenever it is a different position from the original
+    let accumulate = s.chance(33);
+    let mut acc = b0;
+    let mut acc_what: Vec<String> = Vec::new();
     for _ in 0..nflips {
-        let mut b = b0;
+        let mut b = if accumulate { acc } else { b0 };
         let what: String;
         match s.below(9) {
             0 | 1 => {
                 // add a man on an empty square
                 let sq = s.below(64) as u8;
-                if p.sq[sq as usize].is_some() {
+                if eng::board_to_pos(&b).sq[sq as usize].is_some() {
                     continue;
                 }
                 let k = *s.pick(&[Kind::P, Kind::N, Kind::B, Kind::R, Kind::Q, Kind::K]);
@@ -204,26 +210,38 @@ fn part_flips(bytes: &[u8], stats: &mut Stats) -> Verdict {
             }
             2 => {
                 // remove a man
-                let occ: Vec<u8> = (0..64u8).filter(|q| p.sq[*q as usize].is_some()).collect();
+                let cur = eng::board_to_pos(&b);
+                let occ: Vec<u8> = (0..64u8).filter(|q| cur.sq[*q as usize].is_some()).collect();
+                if occ.is_empty() {
+                    continue;
+                }
                 let sq = occ[s.below(occ.len())];
-                let (c, k) = p.sq[sq as usize].unwrap();
+                let (c, k) = cur.sq[sq as usize].unwrap();
                 b.remove_piece(ecol(c), epiece(k), sq);
                 what = format!("remove {}", refchess::sq_name(sq));
             }
             3 => {
                 // recolour
-                let occ: Vec<u8> = (0..64u8).filter(|q| p.sq[*q as usize].is_some()).collect();
+                let cur = eng::board_to_pos(&b);
+                let occ: Vec<u8> = (0..64u8).filter(|q| cur.sq[*q as usize].is_some()).collect();
+                if occ.is_empty() {
+                    continue;
+                }
                 let sq = occ[s.below(occ.len())];
-                let (c, k) = p.sq[sq as usize].unwrap();
+                let (c, k) = cur.sq[sq as usize].unwrap();
                 b.remove_piece(ecol(c), epiece(k), sq);
                 b.add_piece(ecol(c.other()), epiece(k), sq);
                 what = format!("recolour {}", refchess::sq_name(sq));
             }
             4 => {
                 // retype
-                let occ: Vec<u8> = (0..64u8).filter(|q| p.sq[*q as usize].is_some()).collect();
+                let cur = eng::board_to_pos(&b);
+                let occ: Vec<u8> = (0..64u8).filter(|q| cur.sq[*q as usize].is_some()).collect();
+                if occ.is_empty() {
+                    continue;
+                }
                 let sq = occ[s.below(occ.len())];
-                let (c, k) = p.sq[sq as usize].unwrap();
+                let (c, k) = cur.sq[sq as usize].unwrap();
                 let others: Vec<Kind> = [Kind::P, Kind::N, Kind::B, Kind::R, Kind::Q, Kind::K].into_iter().filter(|x| *x != k).collect();
                 let nk = others[s.below(others.len())];
                 b.remove_piece(ecol(c), epiece(k), sq);
@@ -237,7 +255,8 @@ fn part_flips(bytes: &[u8], stats: &mut Stats) -> Verdict {
             6 => {
                 let i = s.below(4);
                 let ch = ['K', 'Q', 'k', 'q'][i];
-                b.castling_ability.set(ch, !p.castle[i]);
+                let now = eng::board_to_pos(&b).castle[i];
+                b.castling_ability.set(ch, !now);
                 what = format!("castling right {}", ch);
             }
             _ => {
@@ -255,6 +274,20 @@ fn part_flips(bytes: &[u8], stats: &mut Stats) -> Verdict {
                 b.en_passant_target = new;
             }
         }
+        let what = if accumulate {
+            acc = b;
+            acc_what.push(what);
+            if eng::board_to_pos(&b) == eng::board_to_pos(&b0) {
+                // the flips cancelled out: the same position again (equality is the routes part's business)
+                continue;
+            }
+            if acc_what.len() >= 2 {
+                stats.class("flips_accumulated_two_or_more_components");
+            }
+            acc_what.join(" + ")
+        } else {
+            what
+        };
         let h = hashes(&b);
         stats.eval();
         let cls = what.split(' ').next().unwrap_or("flip").to_string();
